@@ -18,6 +18,10 @@ static int Lmax = 3;
 static int family;          /* 0 = full alphabet up to Lmax; 1.. = 2-symbol sub-alphabet families */
 static const char *GN[3] = { NULL, "A", "AB" };   /* "A" is a proper prefix of "AB" on purpose */
 static const char *KN[2] = { "x", "xy" };        /* "x" is a proper prefix of "xy" on purpose */
+/* --p4 = 1: names that are different strings but equal under the library's own string hash (helpers.c hashstring, djb2:
+ * first character +1, second -33) and under a case-insensitive comparison of the first character only */
+static const char *GN_COLL[3] = { NULL, "Az", "BY" };
+static const char *KN_COLL[2] = { "xz", "yY" };
 
 /* 2-symbol sub-alphabets for the long family: pairs of (g,k) symbols that force collisions */
 static const int SUB[][2][2] = {
@@ -240,6 +244,7 @@ int main(int argc, char **argv)
   if (mc_opt.param[0]) Lmax = (int)mc_opt.param[0];
   if (mc_opt.param[2]) sub_len = (int)mc_opt.param[2];
   if (Lmax > MAXL || sub_len > MAXL) mc_die("L too large");
+  if (mc_opt.param[4] == 1) { memcpy(GN, GN_COLL, sizeof GN); memcpy(KN, KN_COLL, sizeof KN); }
   family = (int)mc_opt.param[3];   /* which family this process explores: 0 full alphabet, 1..3 long 2-symbol */
   if (family < 0 || family > NSUB) mc_die("bad family");
   if (mc_opt.case_id) return mc_replay(gen, exec, mc_opt.case_id);
